@@ -309,8 +309,20 @@ func evString(ev uint32) string {
 	return s
 }
 
+// CtlHook, when set, is called at the entry of every epoll_ctl on a virtual descriptor (before the
+// call takes effect and without any shim lock held): a yield point for schedule forcing between a
+// decision taken by the caller and its epoll_ctl.
+var CtlHook func(fd, op int, events uint32)
+
 func EpollCtl(epfd, op, fd int, ev *syscall.EpollEvent) error {
 	if v := get(fd); v != nil {
+		if h := CtlHook; h != nil {
+			var e uint32
+			if ev != nil {
+				e = ev.Events
+			}
+			h(fd, op, e)
+		}
 		v.mu.Lock()
 		defer v.mu.Unlock()
 		switch op {
